@@ -16,8 +16,13 @@ def run_property(pid: str, prog: Program, tier: str, seed: int = 0):
     mod = importlib.import_module(f"va.rules.{pid}")
     rep = Reporter(pid, tier, prog, seed)
     err = None
+    from . import common
+    common.ANALYSED.clear()
     try:
         mod.check(prog, rep, tier)
+        rep.functions = {f"{q} [{c}]" if c else q for (c, q) in common.ANALYSED}
+        rep.contexts |= {c for (c, q) in common.ANALYSED if c}
+        rep.paths = sum(common.ANALYSED.values())
         rep.check_floors()
     except AnalysisError as e:
         err = str(e)
